@@ -207,7 +207,7 @@ func c07CtlHits(patterns []string, name string) []string {
 		if err != nil {
 			continue
 		}
-		if norm != "" && re.MatchString(norm) {
+		if name != "" && re.MatchString(norm) { // no hits for an absent name; the root name "." is matched as ""
 			hits = append(hits, p)
 		}
 	}
